@@ -77,6 +77,8 @@ def main():
         elif a[0] == "--limit": limit = int(a[1]); a = a[2:]
         else: raise SystemExit("bad arg " + a[0])
     rel = "src/binson_%s.c" % which
+    global ORDER
+    if which == "writer": ORDER = ["C04", "C05", "C10", "C09", "C12"] + [c for c in ORDER if c not in ("C04", "C05", "C10", "C09", "C12")]
     os.makedirs(os.path.join(outdir, "survivors"), exist_ok=True)
     src, ms = sites(os.path.join("/repo", rel))
     log = open(os.path.join(outdir, "sweep_%s.log" % which), "a")
